@@ -27,6 +27,7 @@ def run_scenario(shape, edits, vals, expect_exception=None):
     text_blocks = [b for b in blocks if b.section.name == ".text"]
     info = {"ir": ir, "m": m, "blocks0": blocks, "view0": v0, "shape": shape, "edits": list(edits), "default_target": 1,
             "block_bases": {i: b.address - V.BASE for i, b in enumerate(blocks) if b.section.name == ".text"},
+            "block_sizes0": {i: b.size for i, b in enumerate(blocks)},
             "block_index_at": {b.address - V.BASE: i for i, b in enumerate(text_blocks)},
             "label_kinds0": validators.label_kinds(m),
             "label_block0": {s.name: blocks.index(s.referent) for s in m.symbols if s.referent in text_blocks},
